@@ -37,6 +37,33 @@ def check(ctx):
             f.append("a pooled connection was left open by shutdown")
         return f
     d.check(C.load_corpus(ID) + eps, oracle=orc, label="stop")
+    # the pool while Shutdown overlaps Get / Put / Close / cleanup: nothing handed in stays open
+    from . import c12
+    for i in range(4 if ctx.thorough() else 2):
+        env = {"VERIF_RACE_MS": str(1000 if ctx.thorough() else 400), "VERIF_RACE_SEED": str(ctx.seed * 13 + i)}
+        rc, out = c12.run_workload(ctx, binary, "TestVerifPoolRace", env)
+        cls = c12.classify(rc, out)
+        if cls:
+            C.violation(ctx, "pool-shutdown-" + cls[0], {"what": "pool operations overlapping Shutdown: " + cls[0],
+                                                         "test": "TestVerifPoolRace", "env": env, "report": cls[1]})
+            break
+    if not any(v["kind"].startswith("pool-shutdown") for v in ctx.violations):
+        env = {"VERIF_PUT_ROUNDS": str(600 if ctx.thorough() else 120)}
+        rc, out = c12.run_workload(ctx, binary, "TestVerifPutShutdown", env)
+        cls = c12.classify(rc, out)
+        if cls:
+            C.violation(ctx, "pool-shutdown-" + cls[0], {"what": "Put at the moment of Shutdown: " + cls[0],
+                                                         "test": "TestVerifPutShutdown", "env": env, "report": cls[1]})
+    # the process-level sequence (shutdownGracefully), with the drain finishing and with the drain
+    # running into the shutdown timeout
+    overlay = C.make_overlay(ctx, clock_pkgs=[], harness_pkgs=["cmd/helios"], hmap={"cmd/helios": "helios"})
+    hel = C.go_test_build(ctx, "cmd/helios", overlay, name="helios")
+    dg = C.Differential(ctx, hel, timeout=600, project=lambda line: line.split(" || ", 1)[0])
+
+    def orc_gs(ep, outs):
+        o = outs[0] if outs else ""
+        return [] if o.startswith("gs returned probesAfter=0") else ["after the process-level shutdown (%s) the balancer is still probing: %s" % (ep[0], o)]
+    dg.check([["gs 0"], ["gs 2500"]], oracle=orc_gs, label="graceful")
     ctx.cov.update({
         "evaluations": len(eps),
         "distinct_nontrivial": len(set(e[0] for e in eps if e[0].split()[3] != "0")),
